@@ -371,6 +371,10 @@ def _falls_through(stmts):
         return True
     a, b = _falls_through(last.body), _falls_through(last.orelse)
     t = last.test
+    try:
+        t._hv_at = last  # inside a combined condition this test is still evaluated at its own `if`
+    except Exception:
+        pass
 
     def AND(x, y):
         if x is False or y is False:
